@@ -15,7 +15,13 @@ the case print `skip` (the harness prints `skip ## <its oracle's verdict>`).
 Verdict = the property's oracle on the MODEL's output, at every idle point:
 `not-fresh` (printed with the known-finding class: `dom-order-move-elided` when the view contains a
 `<For>` whose current rows are a permutation of the rendered ones, `stale-effect` when a dynamic part
-reads a memo and then a source of that memo), `touched`, `not-unmounted`. -/
+reads a memo and then a source of that memo), `touched`, `not-unmounted`.
+
+Views with component-local state (`sc <sid> m|s ..`, `forr ..`; expressions `K`, `V<j>`; op `setl <sid> <v>`):
+the fresh render takes the current value of every live component-local signal from the state tree
+(`sigVal`), the untouched-nodes oracle is not applied.  A poll in which a run reads a component-local
+node that was already disposed prints `panic ## fail read-disposed` and every further line `dead`
+(the real code panics there: F-C04-2). -/
 open Leptos Leptos.Wire Leptos.RView
 open Leptos.Reactive (Expr NodeDef)
 
